@@ -42,8 +42,11 @@ def row_hex(row):
     return str(tmin(row[0])) + '|' + '|'.join(repr(float(v)) for v in row[1:])
 
 
+BASE = [S.T0]             # timestamp of the session's first 1m candle (item['ts_off'] minutes after T0)
+
+
 def tmin(ts):
-    return int((int(ts) - S.T0) // S.MIN)
+    return int((int(ts) - BASE[0]) // S.MIN)
 
 
 # ------------------------------------------------------------------------------------------------ inputs
@@ -55,8 +58,9 @@ def build_candles(item):
     nall = item['nsym'] + (1 if item.get('dsym') else 0)      # a data-only symbol (never traded) gets its own series
     for si in range(nall):
         sym = SYMS[si]
+        t0 = S.T0 + int(item.get('ts_off', 0)) * S.MIN          # the session may start off every timeframe boundary
         a = S.lattice_walk(item['n'], item['seed'] * 131 + si, start=w.get('start', 100), step=w.get('step', 2),
-                           wick=w.get('wick', 2), flat_p=w.get('flat_p', 0.15), gap_p=w.get('gap_p', 0.1))
+                           wick=w.get('wick', 2), flat_p=w.get('flat_p', 0.15), gap_p=w.get('gap_p', 0.1), ts0=t0)
         inject_empty_minutes(a, item.get('flats', []), item.get('zerovol', []), item['seed'] * 17 + si)
         if item.get('side') == 'B':
             t = item['cut']
@@ -77,7 +81,7 @@ def build_candles(item):
         if item.get('warm'):
             W = item['warm']
             warm[sym] = S.lattice_walk(W, item['seed'] * 131 + 50 + si, start=w.get('start', 100), step=w.get('step', 2),
-                                       wick=w.get('wick', 2), ts0=S.T0 - W * S.MIN)
+                                       wick=w.get('wick', 2), ts0=t0 - W * S.MIN)
     return out, (warm or None)
 
 
@@ -287,6 +291,44 @@ def make_candle_policy(item, rec):
     return CandlePolicy
 
 
+def make_mark_policy(base, rec):
+    """wraps a policy class: inside on_open_position / on_increased_position it reads values that depend on the position's
+    MARK price (position.pnl, available margin) and feeds them into the take-profit it declares there.  Both simulators
+    must have marked the position to the fill price before the hook runs."""
+    class MarkPolicy(base):
+        def _mark(self):
+            try:
+                v = float(self.position.pnl)
+                if self.exchange_type == 'futures':
+                    v += float(self.available_margin)
+            except Exception:
+                v = -1.0
+            v = int(round(v * 16))
+            rec.cread.append({'t': tmin(self.time), 'tf': 'mark-price-in-hook', 'v': v})
+            if self.take_profit is not None and self.position.qty != 0:
+                k = v % 3
+                sign = 1 if self.position.qty > 0 else -1
+                arr = np.array(self.take_profit, dtype=float).reshape(-1, 2)
+                self.take_profit = [(float(q), float(p) + sign * k * self.POLICY['tick']) for q, p in arr]
+
+        def on_open_position(self, order):
+            super().on_open_position(order)
+            self._mark()
+
+        def on_increased_position(self, order):
+            super().on_increased_position(order)
+            self._mark()
+
+    return MarkPolicy
+
+
+def strategy_class(item, rec):
+    cls = make_candle_policy(item, rec) if item.get('candle_policy') else None
+    if item.get('mark_policy'):
+        cls = make_mark_policy(cls or S.make_policy_strategy(item['policy'], observe=rec.observe), rec)
+    return cls
+
+
 def routes_of(item):
     routes = [{'symbol': SYMS[si], 'timeframe': item['ttf']} for si in range(item['nsym'])]
     data = [{'symbol': SYMS[si], 'timeframe': tf} for si in range(item['nsym']) for tf in item.get('dtfs', [])]
@@ -297,6 +339,7 @@ def routes_of(item):
 def run_item(item):
     """one real backtest; returns dict(seq, fills, trades, balances, liq, exc, n_orders) - all TLC-readable"""
     cand, warm = build_candles(item)
+    BASE[0] = S.T0 + int(item.get('ts_off', 0)) * S.MIN
     rec = SimRec(item).install()
     rec.cand = cand
     rec.chunk = int(item.get('chunk', 1) or 1)
@@ -306,7 +349,7 @@ def run_item(item):
         routes, data = routes_of(item)
         out = S.run_backtest(item['policy'], config_of(item), cand, routes=routes, data_routes=data,
                              fast=(item['mode'] == 'fast'), observe=rec.observe, warmup=warm,
-                             strategy_cls=(make_candle_policy(item, rec) if item.get('candle_policy') else None))
+                             strategy_cls=strategy_class(item, rec))
     except HarnessTimeout:
         out = {'exc': 'HarnessTimeout: the backtest did not finish within %d s' % RUN_TIMEOUT, 'final': None}
         del rec.seq[5000:]
